@@ -23,13 +23,13 @@ pub const TEMPLATES: &[&str] = &[
     "read -t N x <<< abc; echo \"$x\"", "echo $(( N#1 ))", "echo $(( 16#N ))", "declare -i z=N; echo $z", "x=N; echo $(( x ))", "a=\"1+b[a+1]\"; echo $(( a ))", "x=x; echo $(( x ))", "echo ${v:-N}", "umask N; umask", "ulimit -n N; ulimit -n",
     "cd -N", "pushd +N", "popd -N", "dirs +N", "history N", "fc -l N", "wait N", "getopts a o -a; OPTIND=N; getopts a o -a", "echo \"${v@N}\"", "echo \"${!N}\"", "echo $N ${N} ${#N}", "[[ N -eq N ]]; echo $?", "[ N -lt N ]; echo $?", "test N -gt N; echo $?",
     "case N in N) echo m;; esac", "[[ abc =~ N ]]; echo $?", "[[ abc == N ]]; echo $?", "echo ${v//N/N}", "echo ${v/#N}", "echo ${v%%N}", "printf '%q\\n' N", "echo $'\\xN' | od -c | head -1", "echo $'\\uN' | od -c | head -1", "echo -e '\\0N'",
-    "x=${PS1@P}; PS1='N'; echo \"${PS1@P}\"", "PS1='\\N'; echo \"${PS1@P}\"", "PS4='N'; set -x; :", "IFS=N; set -- a b; echo \"$*\"", "OPTIND=N; getopts a o", "RANDOM=N; echo ok", "SECONDS=N; echo ok", "LINENO=N; echo $LINENO", "BASH_ARGV0=N",
+    "x=${PS1@P}; PS1='N'; echo \"${PS1@P}\"", "PS1='\\D{N}'; echo \"${PS1@P}\"", "PS1='\\D{%N}'; echo \"${PS1@P}\"", "PS1='\\[\\e]0;N\\a\\]\\N'; echo \"${PS1@P}\"", "PS1='\\u@\\h:\\w\\$ \\!\\#\\j\\l\\s\\t\\T\\@\\A\\v\\V\\W N'; echo \"${PS1@P}\"", "PS1='\\N'; echo \"${PS1@P}\"", "PS4='N'; set -x; :", "IFS=N; set -- a b; echo \"$*\"", "OPTIND=N; getopts a o", "RANDOM=N; echo ok", "SECONDS=N; echo ok", "LINENO=N; echo $LINENO", "BASH_ARGV0=N",
     "trap 'echo t' N", "trap - N", "enable -n N", "alias N=x", "unset N", "declare -n r=N; echo $r", "declare -A m; m[N]=1; echo ${m[N]}", "mapfile -n N a <<< x", "mapfile -s N a <<< x", "mapfile -O N a <<< x", "echo ${a[@]:N}", "echo ${x:N:N:N}",
     "complete -W 'N' c; compgen -W 'N' -- N", "compgen -A function N", "compgen -G 'N'", "printf -v 'a[N]' x", "printf '%(N)T\\n' N", "printf '%b\\n' 'N'", "echo \"$(( N ? N : N ))\"", "echo $(( N , N ))", "echo $(( -N ))", "echo $(( ~N ))", "echo $(( !N ))",
 ];
 
 /// operands substituted for `N` in templates besides the boundary numbers
-pub const OPERANDS: &[&str] = &["", " ", "x", "*", "?", "[", "]", "[a", "(", ")", "\\", "'", "\"", "$", "$x", "${", "$(", "`", "a b", "é", "\u{1F600}", "-", "--", "-n", "~", "#", ";", "|", "&", "\n", "@", "!", "%", "^", "+(", "a{", "{,}", "//", "..", "1..2"];
+pub const OPERANDS: &[&str] = &["%Q", "%", "%5", "%E", "%O", "%:z", "%#Z", "%-", "%Y%", "", " ", "x", "*", "?", "[", "]", "[a", "(", ")", "\\", "'", "\"", "$", "$x", "${", "$(", "`", "a b", "é", "\u{1F600}", "-", "--", "-n", "~", "#", ";", "|", "&", "\n", "@", "!", "%", "^", "+(", "a{", "{,}", "//", "..", "1..2"];
 
 #[derive(Clone, Debug, Serialize, Deserialize, PartialEq)]
 pub enum Edit {
